@@ -110,3 +110,41 @@ OVERWRITE_WITH_SLOT = Contract(
     frame=["Params.p_has", "Params.p_val"], props=["C08"],
     assumes=["str.split('/') is uninterpreted (a non-empty list of strings)"],
 )
+
+
+# ---------------------------------------------------------------- the worker's connection parameters reach the parsed net (C08)
+import ast                                                                        # noqa: E402
+GRAPHF = "avocado_i2n/cartgraph/graph.py"
+
+
+def net_params_block(fn):
+    for n in ast.walk(fn):
+        for field in ("body", "orelse"):
+            stmts = getattr(n, field, None)
+            if not isinstance(stmts, list):
+                continue
+            for i, s in enumerate(stmts[:-1]):
+                if isinstance(s, ast.Assign) and ast.unparse(s.targets[0]) == "setup_dict" and \
+                        ast.unparse(stmts[i + 1]).startswith("setup_dict.update(") and "nets_" in ast.unparse(stmts[i + 1]):
+                    return [s, stmts[i + 1]]
+    return []
+
+
+NET_PARAMS = Contract(
+    target=f"{GRAPHF}::TestGraph.get_and_parse_objects_for_node_and_object", name="TestGraph.get_and_parse_objects_for_node_and_object#net_params",
+    block=("net_params", net_params_block),
+    params={"params": (Ref("Params"), "nullable"), "test_object": Ref("TestObject")},
+    requires=["test_object.params != params"],
+    outputs={"setup_dict": Ref("Params")},
+    ensures=[
+        # every connection parameter of the worker's net - also an explicitly empty one - is handed to the parsed net
+        ("all_connection_parameters_forwarded", "forall(STR, lambda k: implies(k.startswith('nets_') and k in test_object.params, "
+                                                "k in setup_dict and setup_dict[k] == test_object.params[k]))"),
+        ("runtime_parameters_kept", "implies(params is not None, forall(STR, lambda k: implies(k in params and not "
+                                    "(k.startswith('nets_') and k in test_object.params), k in setup_dict and setup_dict[k] == params[k])))"),
+        ("nothing_else_added", "forall(STR, lambda k: implies(k in setup_dict, (params is not None and k in params) or "
+                               "(k.startswith('nets_') and k in test_object.params)))"),
+    ],
+    frame=["Params.p_has", "Params.p_val"], props=["C08"],
+    assumes=["extracted block: the two statements that build the parameters a new composite net is parsed with"],
+)
